@@ -134,6 +134,86 @@ end
 Zbq :: blob {
     f: fn int -> int,
 }
+
+Zbm :: blob {
+    n: int,
+    f: fn -> int,
+}
+
+Zn :: blob {
+    a: int,
+}
+
+Zw :: blob {
+    a: int,
+    b: int,
+}
+
+Zfr :: blob {
+    name: str,
+    origin: fn int -> Zlate1,
+}
+
+Zlate1 :: blob {
+    x: int,
+}
+
+Zfe :: enum
+    Now int,
+    Later fn -> Zlate2,
+end
+
+Zlate2 :: blob {
+    value: int,
+}
+
+Zfp :: blob {
+    sink: fn Zlate3 -> int,
+}
+
+Zlate3 :: blob {
+    x: int,
+}
+
+Zfl :: blob {
+    items: [Zlate4],
+}
+
+Zlate4 :: blob {
+    x: int,
+}
+
+Zft :: blob {
+    pair: (int, Zlate5),
+}
+
+Zlate5 :: blob {
+    x: int,
+}
+
+Zfm :: blob {
+    opt: Maybe(Zlate6),
+}
+
+Zlate6 :: blob {
+    x: int,
+}
+
+hzmp := pu x: int -> int do
+    x
+end
+
+zinf_tcmp :: fn p ->
+    (p, 1) < (6, 1)
+end
+
+zinf_tadd :: fn p ->
+    (p, 1) + (2, 3)
+end
+
+zinf_tsub :: fn p, q ->
+    (1.5, p) - (q, 2)
+end
 "#;
 
 // ---------------------------------------------------------------- C03 kinds
@@ -208,6 +288,35 @@ pub const C03_KINDS: &[Kind] = &[
     k("ret of another type in an if-expression bound to a constant", Body::Stmts(&["zf :: fn zc: bool -> int do", "    zq :: if zc do", "        ret \"s\"", "    else do", "        1", "    end", "    zq", "end"])),
     k("ret of another type in a loop body", Body::Stmts(&["zf :: fn zc: bool -> int do", "    loop zc do", "        ret \"s\"", "    end", "    1", "end"])),
     k("ret of another type in an if-expression operand of the trailing expression", Body::Stmts(&["zf :: fn zc: bool -> int do", "    1 + if zc do", "        ret \"s\"", "    else do", "        1", "    end", "end"])),
+    // `self` inside a method is the blob being built: its fields have their declared types
+    k("self field used at another type in a method", Body::Stmts(&["zo :: Zbm { n: 1, f: fn -> int do", "    zq :: self.n + \"s\"", "    1", "end }"])),
+    k("self field assigned a value of another type in a method", Body::Stmts(&["zo :: Zbm { n: 1, f: fn -> int do", "    self.n = \"s\"", "    1", "end }"])),
+    k("self field of function type called with a wrong argument", Body::Stmts(&["zo :: Zbm { n: 1, f: fn -> int do", "    self.f(1)", "end }"])),
+    // element-wise tuple operators whose element types are only known at the call
+    k("un-annotated `(p, 1) < (6, 1)` called with a str", Body::Stmts(&["zs :: \"x\"", "zinf_tcmp(zs)"])),
+    k("un-annotated `(p, 1) + (2, 3)` called with a str", Body::Stmts(&["zinf_tadd(\"x\")"])),
+    k("un-annotated `(1.5, p) - (q, 2)` called with a str and an int", Body::Stmts(&["zs :: \"x\"", "zinf_tsub(zs, 1.5)"])),
+    k("un-annotated `(1.5, p) - (q, 2)` called with an int for the float", Body::Stmts(&["zinf_tsub(1, 2)"])),
+    // blobs are structural: a blob with fewer fields is not a blob with more fields, in either direction
+    k("narrow blob assigned to a wide blob variable", Body::Stmts(&["zv := Zw { a: 1, b: 2 }", "zv = Zn { a: 1 }"])),
+    k("wide blob assigned to a narrow blob variable", Body::Stmts(&["zv := Zn { a: 1 }", "zv = Zw { a: 1, b: 2 }"])),
+    k("if-expression: wide arm then narrow arm", Body::Stmts(&["zq := if true do", "    Zw { a: 1, b: 2 }", "else do", "    Zn { a: 1 }", "end"])),
+    k("if-expression: narrow arm then wide arm", Body::Stmts(&["zq := if true do", "    Zn { a: 1 }", "else do", "    Zw { a: 1, b: 2 }", "end"])),
+    k("narrow blob passed for a wide blob parameter", Body::Stmts(&["zh :: fn p: Zw do", "end", "zh(Zn { a: 1 })"])),
+    k("list of a wide and a narrow blob", Body::Stmts(&["zl := [Zw { a: 1, b: 2 }, Zn { a: 1 }]"])),
+    k("list of a narrow and a wide blob", Body::Stmts(&["zl := [Zn { a: 1 }, Zw { a: 1, b: 2 }]"])),
+    k("narrow blob for a declared wide blob", Body::Stmts(&["zv: Zw = Zn { a: 1 }"])),
+    // a declared field / payload type that mentions a type declared further down, in every type position
+    k("fn field returning a later-declared type given a fn returning str", Body::Stmts(&["zo := Zfr { name: \"c\", origin: fn s: int -> str do", "    ret \"nowhere\"", "end }"])),
+    k("variant payload fn returning a later-declared type given a fn returning bool", Body::Stmts(&["zq := Zfe.Later fn -> bool do", "    ret true", "end"])),
+    k("fn field taking a later-declared type given a fn taking str", Body::Stmts(&["zo := Zfp { sink: fn s: str -> int do", "    1", "end }"])),
+    k("list field of a later-declared type given a list of str", Body::Stmts(&["zo := Zfl { items: [\"s\"] }"])),
+    k("tuple field with a later-declared type given a str", Body::Stmts(&["zo := Zft { pair: (1, \"s\") }"])),
+    k("Maybe field of a later-declared type given a Maybe of str", Body::Stmts(&["zo := Zfm { opt: Maybe.Just \"s\" }"])),
+    // a recursive function without annotations is one function, not a generic one, inside its own body
+    k("un-annotated recursive function: result used as int, definition returns str", Body::Stmts(&["zrf :: fn zn ->", "    if zn <= 0 do", "        ret \"s\"", "    end", "    zq :: 1 + zrf(zn - 1)", "    \"t\"", "end", "zrf(2)"])),
+    k("un-annotated recursive function: result compared with a float, definition returns str", Body::Stmts(&["zrf :: fn zn ->", "    if zn <= 0 do", "        ret \"s\"", "    end", "    if 1.5 <= zrf(zn - 1) do", "    end", "    \"t\"", "end", "zrf(2)"])),
+    k("un-annotated recursive function: argument of another type in the recursive call", Body::Stmts(&["zrf :: fn zn, zv ->", "    if zn <= 0 do", "        ret zv + 1", "    end", "    zrf(zn - 1, \"s\")", "end", "zrf(2, 1)"])),
 ];
 
 // ---------------------------------------------------------------- C04 kinds
@@ -262,6 +371,11 @@ pub const C04_KINDS: &[Kind] = &[
     k("tuple with impure function (used generically before) bound to tuple with pu", Body::Stmts(&["zt: (fn int -> int, int) = (hzi, 1)", "zk :: zid(zt)", "zp: (pu int -> int, int) : zt"])),
     k("impure function from fn blob field (used generically before) bound to pu", Body::Stmts(&["zo := Zbq { f: hzi }", "zk :: zid(zo.f)", "zp: pu int -> int : zo.f"])),
     k("fn literal stored late into generically used list, bound to list of pu", Body::Stmts(&["zl: [fn int -> int] = []", "zk :: zlen(zl)", "zk3 :: zid(zl)", "zl = [fn x: int -> int do x end]", "zp: [pu int -> int] : zl"])),
+    // calling a MUTABLE variable that holds a pure function is still a read of a mutable variable
+    k("pure: call of a mutable local holding a pu function", Body::Stmts(&["zmp := pu x: int -> int do", "    x", "end", "zp :: pu -> int do", "    zmp(1)", "end"])),
+    k("pure: call of a mutable global holding a pu function", Body::Stmts(&["zp :: pu -> int do", "    hzmp(1)", "end"])),
+    k("pure: prime call of a mutable local holding a pu function", Body::Stmts(&["zmp := pu x: int -> int do", "    x", "end", "zp :: pu -> int do", "    zmp' 1", "end"])),
+    k("pure: arrow call of a mutable local holding a pu function", Body::Stmts(&["zmp := pu x: int -> int do", "    x", "end", "zp :: pu -> int do", "    1 -> zmp'", "end"])),
 ];
 
 // ---------------------------------------------------------------- C05 kinds
@@ -298,6 +412,9 @@ pub const C05_KINDS: &[Kind] = &[
     k("tuple assigned a different length", Body::Stmts(&["zt := (1, 2)", "zt = (1, 2, 3)"])),
     k("externblob instantiation", Body::Expr("Zx { a: 1 }")),
     k("externblob instantiation (definition)", Body::Stmts(&["zq :: Zx { a: 1 }"])),
+    k("field access on self: blob lacks field", Body::Stmts(&["zo :: Zbf { f: fn -> int do", "    self.nope", "end }"])),
+    k("field assignment on self: blob lacks field", Body::Stmts(&["zo :: Zbm { n: 1, f: fn -> int do", "    self.nope = 2", "    1", "end }"])),
+    k("field access on self in a nested closure: blob lacks field", Body::Stmts(&["zo :: Zbm { n: 1, f: fn -> int do", "    zg :: fn -> int do", "        self.m", "    end", "    zg()", "end }"])),
     k("break outside a loop", Body::OutsideLoop(&["break"])),
     k("continue outside a loop", Body::OutsideLoop(&["continue"])),
     k("break in an if outside a loop", Body::OutsideLoop(&["if true do", "    break", "end"])),
